@@ -259,6 +259,26 @@ var (
 	ccExamples []string
 )
 
+// Distinct organizer states are collected in a sharded set and handed to vlib once at the end (one
+// global mutex per observation would serialise the 16 workers).
+type stateShard struct {
+	mu sync.Mutex
+	m  map[uint64]struct{}
+	_  [40]byte
+}
+
+var stateShards [256]stateShard
+
+func observeState(h uint64) {
+	sh := &stateShards[h&255]
+	sh.mu.Lock()
+	if sh.m == nil {
+		sh.m = map[uint64]struct{}{}
+	}
+	sh.m[h] = struct{}{}
+	sh.mu.Unlock()
+}
+
 type errLogger struct{ errs []string }
 
 func (l *errLogger) Infof(format string, args ...interface{})  {}
@@ -292,6 +312,7 @@ type runner struct {
 	evals, trans int
 	ccOK, ccErr  int64
 	ccUnflushed  int64
+	lg           errLogger
 	menus        [16]*menuState
 	outcomes     map[string]int64
 	nontrivial   bool
@@ -473,8 +494,8 @@ func (r *runner) compareWithScratch(o2 *manifest.L0Organizer, how string) bool {
 		r.viol("incremental-describe-differs", fmt.Sprintf("%s: scratch:\n%s\nincremental:\n%s", how, a, b))
 		ok = false
 	}
-	if a, b := r.o.VerifDumpL0State(), o2.VerifDumpL0State(); a != b {
-		r.viol("incremental-state-differs", fmt.Sprintf("%s: scratch:\n%s\nincremental:\n%s", how, a, b))
+	if !r.o.VerifL0StateEqual(o2) {
+		r.viol("incremental-state-differs", fmt.Sprintf("%s: scratch:\n%s\nincremental:\n%s", how, r.o.VerifDumpL0State(), o2.VerifDumpL0State()))
 		ok = false
 	}
 	return ok
@@ -570,13 +591,18 @@ func (r *runner) checkIncremental() {
 func (r *runner) deriveInProgress(menu []baseFile) ([]ipc, bool) {
 	var out []ipc
 	for _, kind := range []int{1, 2} {
-		var fs []*mfile
+		var buf [4]*mfile
+		fs := buf[:0]
 		for _, f := range r.files {
 			if f.mark == kind {
 				fs = append(fs, f)
 			}
 		}
-		sort.Slice(fs, func(i, j int) bool { return fs[i].x < fs[j].x })
+		for i := 1; i < len(fs); i++ { // insertion sort by left bound
+			for j := i; j > 0 && fs[j].x < fs[j-1].x; j-- {
+				fs[j], fs[j-1] = fs[j-1], fs[j]
+			}
+		}
 		for i := 0; i < len(fs); {
 			lo, hi := fs[i].x, fs[i].y
 			j := i + 1
@@ -791,7 +817,8 @@ func (r *runner) checkPick(pfx string, intra bool, lcf *manifest.L0CompactionFil
 }
 
 func (r *runner) pickBase(o *manifest.L0Organizer, depth int, baseSlice manifest.LevelSlice) *manifest.L0CompactionFiles {
-	lg := &errLogger{}
+	lg := &r.lg
+	lg.errs = lg.errs[:0]
 	lcf := o.PickBaseCompaction(lg, depth, baseSlice, baseLevel, nil)
 	r.trans++
 	if len(lg.errs) > 0 {
@@ -870,7 +897,9 @@ func (r *runner) startAndRepick(intra bool, lcf *manifest.L0CompactionFiles, ms 
 	r.trans++
 	inprog2 := append(append([]ipc{}, inprog...), ipc{lo, hi, intra})
 	if nb := r.pickBase(r.o, 1, ms.slice); nb != nil {
-		r.logf("   next base pick %s", r.maskStr(lcfMask(nb)))
+		if r.verbose {
+			r.logf("   next base pick %s", r.maskStr(lcfMask(nb)))
+		}
 		r.checkPick("next-", false, nb, 1, 0, menu, inprog2, 0)
 		r.out("next-base:picked")
 	} else {
@@ -880,7 +909,9 @@ func (r *runner) startAndRepick(intra bool, lcf *manifest.L0CompactionFiles, ms 
 	ni := r.o.PickIntraL0Compaction(base.SeqNum(maxSeq), 1, nil)
 	r.trans++
 	if ni != nil {
-		r.logf("   next intra pick %s", r.maskStr(lcfMask(ni)))
+		if r.verbose {
+			r.logf("   next intra pick %s", r.maskStr(lcfMask(ni)))
+		}
 		r.checkPick("next-", true, ni, 1, maxSeq, menu, inprog2, 0)
 		r.out("next-intra:picked")
 	} else {
@@ -912,14 +943,13 @@ func (r *runner) checkBasePicks(mi int) {
 	r.o.InitCompactingFileInfo(l0c)
 	r.oInc.InitCompactingFileInfo(l0c)
 	r.trans += 2
-	d1 := r.o.VerifDumpL0State()
 	r.stage, r.stDepth, r.stEusn, r.stExtra = "InitCompactingFileInfo", 0, 0, ""
-	if d2 := r.oInc.VerifDumpL0State(); d1 != d2 {
-		r.viol("incremental-state-differs-after-init", fmt.Sprintf("scratch:\n%s\nincremental:\n%s", d1, d2))
+	if !r.o.VerifL0StateEqual(r.oInc) {
+		r.viol("incremental-state-differs-after-init", fmt.Sprintf("scratch:\n%s\nincremental:\n%s", r.o.VerifDumpL0State(), r.oInc.VerifDumpL0State()))
 	}
-	r.c.State(vlib.Hash(d1))
+	observeState(r.o.VerifL0StateHash())
 	if r.verbose {
-		r.logf("--- marks=%v menu=%d %v inprogress=%v\n%s%s", r.marks, mi, menuSpec(ms.files), inprog, r.o.String(), d1)
+		r.logf("--- marks=%v menu=%d %v inprogress=%v\n%s%s", r.marks, mi, menuSpec(ms.files), inprog, r.o.String(), r.o.VerifDumpL0State())
 	}
 	depths := []int{1}
 	if r.thorough {
@@ -943,7 +973,9 @@ func (r *runner) checkBasePicks(mi int) {
 		r.out("base:picked")
 		before := lcfMask(lcf)
 		v0 := r.nViol
-		r.logf("base pick depth %d: %s", depth, r.maskStr(before))
+		if r.verbose {
+			r.logf("base pick depth %d: %s", depth, r.maskStr(before))
+		}
 		r.checkPick("", false, lcf, depth, 0, ms.files, inprog, 0)
 
 		// ExtendL0ForBaseCompactionTo, the way pickedTableCompaction.maybeGrowL0ForBase calls it: the
@@ -981,7 +1013,9 @@ func (r *runner) checkBasePicks(mi int) {
 		grew := r.o.ExtendL0ForBaseCompactionTo(smallest, largest, lcf)
 		r.trans++
 		after := lcfMask(lcf)
-		r.logf("  extend -> grew=%v %s", grew, r.maskStr(after))
+		if r.verbose {
+			r.logf("  extend -> grew=%v %s", grew, r.maskStr(after))
+		}
 		if lcf2 != nil {
 			grew2 := r.oInc.ExtendL0ForBaseCompactionTo(smallest, largest, lcf2)
 			r.trans++
@@ -1061,7 +1095,9 @@ func (r *runner) checkIntraPicks() {
 				continue
 			}
 			r.out("intra:picked")
-			r.logf("intra pick t=%d depth %d: %s", t, depth, r.maskStr(lcfMask(lcf)))
+			if r.verbose {
+				r.logf("intra pick t=%d depth %d: %s", t, depth, r.maskStr(lcfMask(lcf)))
+			}
 			if !lcf.VerifIsIntraL0() {
 				r.viol("intra-pick-kind", "PickIntraL0Compaction returned a candidate not flagged intra-L0")
 			}
@@ -1084,7 +1120,7 @@ func (r *runner) run() {
 	r.stage = "build from scratch"
 	r.build()
 	r.logf("files: %s\n%s%s", r.describeFiles(), r.o.String(), r.o.VerifDumpL0State())
-	r.c.State(vlib.Hash("structure", r.o.VerifDumpL0State()))
+	observeState(r.o.VerifL0StateHash() ^ 0x5555)
 	r.evals++
 	r.checkSoundness(r.o, r.v)
 	r.checkIncremental()
@@ -1190,6 +1226,11 @@ func TestCheck(t *testing.T) {
 				c.Sample(map[string]any{"files": specs, "describe": r.describeFiles()})
 			}
 		})
+		for i := range stateShards {
+			for h := range stateShards[i].m {
+				c.State(h)
+			}
+		}
 		if !complete {
 			c.Incomplete(fmt.Sprintf("budget expired after %d of %d file sets (sets are ordered by size; all smaller sizes complete)", done, len(layouts)))
 		}
